@@ -34,6 +34,7 @@ type amsg struct {
 	Method     string
 	Framing    string // none, cl, chunked
 	Expect     bool
+	ValidForm  bool // body is a well-formed multipart form followed by an epilogue
 	BadTrailer bool // chunked body followed by a trailer section the server's trailer parser rejects
 	Body       []byte
 	Raw        []byte
@@ -116,6 +117,16 @@ func genStream(r *rand.Rand, c cfg) ([]amsg, []byte) {
 		}
 		if m.Framing != "none" {
 			m.Body = genBody(r, i, size)
+			if c.Program == "multipart" && r.Intn(2) == 0 {
+				// a well-formed form whose closing boundary is followed by an epilogue (legal in RFC 2046)
+				// stuffed with decoys: the declared body covers form + epilogue
+				var fb bytes.Buffer
+				fmt.Fprintf(&fb, "--XbX\r\nContent-Disposition: form-data; name=\"f\"\r\n\r\nvalue-%d\r\n--XbX--\r\n", i)
+				ep := genBody(r, i, []int{10, 200, 4000, 4200, 5000, 9000}[r.Intn(6)])
+				fb.Write(ep)
+				m.Body = fb.Bytes()
+				m.ValidForm = true
+			}
 		}
 		m.Expect = c.Expect != "" && m.Framing != "none" && r.Intn(2) == 0
 		var b bytes.Buffer
@@ -123,7 +134,7 @@ func genStream(r *rand.Rand, c cfg) ([]amsg, []byte) {
 		if m.Expect {
 			b.WriteString("Expect: 100-continue\r\n")
 		}
-		if c.Program == "multipart" && r.Intn(2) == 0 {
+		if c.Program == "multipart" && (m.ValidForm || r.Intn(2) == 0) {
 			b.WriteString("Content-Type: multipart/form-data; boundary=XbX\r\n")
 		}
 		switch m.Framing {
@@ -221,6 +232,22 @@ func serve(c cfg, stream []byte) (disp []dispatch, conn *netx.Scripted, panicked
 			case "multipart":
 				_, _ = ctx.MultipartForm()
 				d.Read = nil
+			case "reset-request":
+				// handler throws the request away without reading its body
+				disp = append(disp, d)
+				ctx.Request.Reset()
+				ctx.SetBodyString("ok")
+				return
+			case "resetbody":
+				disp = append(disp, d)
+				ctx.Request.ResetBody()
+				ctx.SetBodyString("ok")
+				return
+			case "timeout":
+				// the handler gives up through the timeout path without reading the body
+				disp = append(disp, d)
+				ctx.TimeoutError("handler timed out")
+				return
 			}
 			disp = append(disp, d)
 			ctx.SetBodyString("ok")
@@ -243,13 +270,22 @@ func serve(c cfg, stream []byte) (disp []dispatch, conn *netx.Scripted, panicked
 	return disp, conn, panicked
 }
 
+func firstBodyMsg(gen []amsg) int {
+	for k, g := range gen {
+		if len(g.Body) > 0 {
+			return k
+		}
+	}
+	return -1
+}
+
 func TestC02(t *testing.T) {
 	r := mon.Start(t, "C02")
 	defer r.Finish()
 	r.Rule("case = 1-4 validly framed pipelined requests (fixed-length or chunked with PRNG chunk splits, sizes 0..24 KiB around the 8 KiB prefetch and MaxRequestBodySize 10000, bodies stuffed with decoy request text, optional Expect: 100-continue, optional trailing garbage) x handler program (ignore/postbody/readk/readall/multipart) x StreamRequestBody x ReduceMemoryUsage x Expect handling (none, ContinueHandler accept/reject, ExpectHandler accept/reject) x fragmentation; distinct = (config, framing kinds, size classes); non-trivial = some message has a body the handler does not fully read, or an expectation, or a body over the limit")
 	r.Assume("generator renders valid framing (re-checked per case with verif/internal/h1: a case whose reference parse disagrees with the generator is a harness failure)")
 	n := r.N(12_000, 400_000)
-	programs := []string{"ignore", "postbody", "readk", "readall", "multipart"}
+	programs := []string{"ignore", "postbody", "readk", "readall", "multipart", "reset-request", "timeout", "resetbody"}
 	expects := []string{"", "", "continue-accept", "continue-reject", "expect-accept", "expect-reject"}
 	frags := []int{1, 13, 4096, 0, 0}
 	mon.Parallel(n, 0, func(i int) {
@@ -292,7 +328,7 @@ func TestC02(t *testing.T) {
 		nontrivial := false
 		for _, g := range gen {
 			sizeClass += fmt.Sprintf("%s%d%v,", g.Framing[:2], len(g.Body)/4096, g.Expect)
-			if len(g.Body) > 0 && (c.Program == "ignore" || c.Program == "readk" || c.Program == "multipart") {
+			if len(g.Body) > 0 && (c.Program == "ignore" || c.Program == "readk" || c.Program == "multipart" || c.Program == "reset-request" || c.Program == "resetbody" || c.Program == "timeout") {
 				nontrivial = true
 			}
 			if g.Expect || (c.MaxBody > 0 && len(g.Body) > c.MaxBody) {
@@ -340,6 +376,12 @@ func TestC02(t *testing.T) {
 					return "continuehandler-reject-keepalive"
 				case g.Expect && c.Expect == "expect-reject":
 					return "expecthandler-reject-desync"
+				case g.ValidForm && c.Program == "multipart":
+					return "multipart-epilogue-desync"
+				case c.Stream && len(g.Body) > 0 && c.Program == "timeout":
+					return "timeout-stream-unread-desync"
+				case c.Stream && len(g.Body) > 0 && c.Program == "reset-request":
+					return "request-reset-stream-unread-desync"
 				case c.Stream && len(g.Body) > 0:
 					return "stream-unread-desync"
 				}
@@ -419,7 +461,9 @@ func TestC02(t *testing.T) {
 			key := "responses-exceed-messages"
 			if prev >= 0 {
 				key = keyFor(prev)
-			} else if c.Stream && (c.Program == "ignore" || c.Program == "readk" || c.Program == "multipart") {
+			} else if k0 := firstBodyMsg(gen); k0 >= 0 && keyFor(k0) != "body-bytes-dispatched" {
+				key = keyFor(k0)
+			} else if c.Stream && (c.Program == "ignore" || c.Program == "readk" || c.Program == "multipart" || c.Program == "reset-request" || c.Program == "resetbody" || c.Program == "timeout") {
 				// same root cause as a decoy dispatch: the unread rest of a streamed body is parsed as a request head
 				key = "stream-unread-desync"
 			}
